@@ -171,6 +171,15 @@ func distPointToSegment(p, segStart, segEnd Point) float64 {
 	v := pointSubtract(segEnd, segStart)
 	w := pointSubtract(p, segStart)
 
+	// The dot products below square the coordinate differences. When those
+	// squares would leave the floating point range, measure a copy that is
+	// scaled by a power of two (which is exact) and scale the result back.
+	if m := math.Max(math.Max(math.Abs(v.X), math.Abs(v.Y)), math.Max(math.Abs(w.X), math.Abs(w.Y))); (m >= 0x1p500 || (m <= 0x1p-500 && m > 0)) && !math.IsInf(m, 0) {
+		_, e := math.Frexp(m)
+		k := math.Ldexp(1, e-1)
+		return k * distPointToSegment(Point{w.X / k, w.Y / k}, Point{}, Point{v.X / k, v.Y / k})
+	}
+
 	c1 := dot(w, v)
 	if c1 <= 0. {
 		return d(p, segStart)
